@@ -54,6 +54,9 @@ CanonVecs(nn) == ShortVecs(nn) \cup LongVecs(nn) \cup UNION {VecWith(nn, {BaseVe
 
 GenInit ==
   /\ n \in Ns /\ done = FALSE /\ hist = <<>>
+  \* the table is decided by contexts restored from bytes (what a node verifies with); single parts, part making,
+  \* garbage and the random constructions run on both representations
+  /\ ctx \in (IF Form = "list" THEN {"new"} ELSE IF Family = "table" THEN {"restored"} ELSE {"new", "restored"})
   /\ IF Family = "walk" THEN cert = <<>> /\ proof \in {[i \in 1..w |-> None] : w \in (IF Form = "vector" THEN Widths(n) ELSE {n})}
      ELSE IF Form = "list"
           THEN /\ proof = [i \in 1..n |-> None]
@@ -61,12 +64,15 @@ GenInit ==
           ELSE cert = <<>> /\ proof \in CanonVecs(n)
 Done == /\ done /\ Len(hist) = 1
         /\ PrintT(<<"B", ToJson(hist)>>)
-        /\ hist' = Append(hist, [op |-> "done"]) /\ UNCHANGED <<n, cert, proof, done>>
+        /\ hist' = Append(hist, [op |-> "done"]) /\ UNCHANGED <<ctx, n, cert, proof, done>>
 GenNext == \/ Family = "walk" /\ Form = "list" /\ \E s \in Sig(n) : AppendItem(s)
            \/ Family = "walk" /\ Form = "vector" /\ \E i \in 1..(n + MaxOver), s \in Sig(n) : AddPart(i, s)
            \/ Form = "list" /\ VerifyList
+           \/ Form = "list" /\ Family = "table" /\ \E d \in {"trunc", "scalar", "baditem"} : DecodeGarbageList(d)
            \/ Form = "vector" /\ VerifyProof
            \/ Form = "part" /\ \E i \in 0..(n + 1), s \in Sig(n) : VerifyPart(i, s)
+           \/ Form = "part" /\ \E w \in 0..n : NewPart(w)
+           \/ Form = "part" /\ \E k \in {"proof", "part"}, d \in {"trunc", "scalar", "badsig"} : DecodeGarbage(k, d)
            \/ Done
 GenSpec == GenInit /\ [][GenNext]_vars
 ====
